@@ -187,16 +187,21 @@ def structure_items(repo):
     items.append(term.item("C03/FortranFile.parse/variant.loop_head", ok_head,
                            "main loop runs while line_no_end < nLines or statements are stacked", fp.where(), func=fp.qualname))
     if loop is not None:
-        first = loop.body[0] if isinstance(loop.body[0], ast.If) else loop.body[1]
-        src = [ast.unparse(s) for s in first.body] if isinstance(first, ast.If) else []
-        prog = (isinstance(first, ast.If) and ast.unparse(first.test) == "not multi_lines"
-                and "line_no = line_no_end if line_no_end > line_no else line_no" in src
-                and "line_no += 1" in src and "line_no_end = line_no" in src
-                and src.index("line_no += 1") < src.index("line_no_end = line_no")
-                and [ast.unparse(s) for s in first.orelse][:1] == ["line = multi_lines.pop()"])
+        from pyvc import shape
+        nloop = shape.normalise(loop)
+        # either branch order: `if not multi_lines: <advance> else: <pop>` or `if multi_lines: <pop> else: <advance>`
+        first = next((s_ for s_ in nloop.body[:3] if isinstance(s_, ast.If) and ast.unparse(s_.test) in ("not multi_lines", "multi_lines")), None)
+        prog = False
+        if first is not None:
+            adv, pop = (first.body, first.orelse) if ast.unparse(first.test) == "not multi_lines" else (first.orelse, first.body)
+            advm, popm = ast.Module(body=adv, type_ignores=[]), ast.Module(body=pop, type_ignores=[])
+            prog = (shape.has(advm, "line_no = line_no_end if line_no_end > line_no else line_no", fixed=("line_no", "line_no_end"))
+                    and shape.has(advm, "line_no += 1", fixed=("line_no",)) and shape.has(advm, "line_no_end = line_no", fixed=("line_no", "line_no_end"))
+                    and shape.before(advm, "line_no += 1", "line_no_end = line_no", fixed=("line_no", "line_no_end"))
+                    and bool(pop) and shape.has(ast.Module(body=pop[:1], type_ignores=[]), "line = multi_lines.pop()", fixed=("multi_lines",)))
         items.append(term.item("C03/FortranFile.parse/variant.progress", prog,
                                "with an empty statement stack line_no_end becomes max(line_no_end, line_no) + 1; "
-                               "otherwise one stacked statement is popped", fp.where(first), func=fp.qualname))
+                               "otherwise one stacked statement is popped", fp.where(loop), func=fp.qualname, shape=True))
         # every other write to line_no_end / push onto multi_lines
         writes = []
         for n in ast.walk(loop):
@@ -235,24 +240,26 @@ def structure_items(repo):
                            "returns False or the line number produced by get_docstring", pd.where(), func=pd.qualname,
                            witness={"returns": rets}))
     # macro bodies are inserted literally
+    from pyvc import shape
     pf = repo.func(f"{PARSER}.preprocess_file")
     psrc = ast.unparse(pf.node)
-    lit = ("template = str(value).replace('\\\\', '\\\\\\\\')" in psrc and "def_regex.subn(template, line)" in psrc
-           and "expansion = arg_regex.sub(lambda m: arg_map[m.group(0)], body)" in psrc and psrc.count(".subn(") == 1
-           and psrc.count("arg_regex.sub(") == 1)
+    pfn = shape.of(repo, f"{PARSER}.preprocess_file")
+    lit = (shape.has(pfn, "template = str(value).replace('\\\\', '\\\\\\\\')\nline_new, nsubs = def_regex.subn(template, line)")
+           and shape.has(pfn, "expansion = arg_regex.sub(lambda m: arg_map[m.group(0)], body)") and psrc.count(".subn(") == 1
+           and psrc.count(".sub(lambda") == 1)
     items.append(Item("C03/preprocess_file/template.subn", "proved" if lit else "refuted", "structural", 0.0,
-                      where=pf.where(), mode="table", func=pf.qualname,
+                      where=pf.where(), mode="table", func=pf.qualname, shape=True,
                       detail="the replacement passed to re.subn is the macro body with its backslashes escaped (object-like macros); "
                              "function-like macros insert arguments through a callable replacement, which re takes literally",
                       witness=None if lit else {"reason": "macro body used as a regex replacement template unescaped"}))
-    esc = "re.compile(f'\\\\b{re.escape(def_tmp)}\\\\b')" in psrc and "re.escape(def_name)" in psrc
+    esc = shape.has(pfn, "re.compile(f'\\\\b{re.escape(def_tmp)}\\\\b')") and shape.has(pfn, "re.escape(def_name)")
     items.append(Item("C03/preprocess_file/regex.escape_macro_name", "proved" if esc else "refuted", "structural", 0.0,
-                      where=pf.where(), mode="table", func=pf.qualname,
+                      where=pf.where(), mode="table", func=pf.qualname, shape=True,
                       detail="macro names (also those configured through pp_defs) are escaped before being compiled",
                       witness=None if esc else {"reason": "macro name interpolated into a regex unescaped"}))
-    cont = "is_multiline = not line.strip().endswith('\\\\')" in psrc
+    cont = shape.has(pfn, "is_multiline = not line.strip().endswith('\\\\')")
     items.append(Item("C03/preprocess_file/index.strip_last", "proved" if cont else "refuted", "structural", 0.0,
-                      where=pf.where(), mode="table", func=pf.qualname,
+                      where=pf.where(), mode="table", func=pf.qualname, shape=True,
                       detail="continuation test of a multi-line macro does not index an empty line",
                       witness=None if cont else {"reason": "line.strip()[-1] on a possibly blank line"}))
     return items
